@@ -32,8 +32,8 @@ COMPOUND = set(G.FIX_FAMS)
 
 def plan(tier, seed):
     if tier == 'quick':
-        return [{'n': 36, 'allprims': (i < 4)} for i in range(16)]
-    return [{'n': 400, 'allprims': (i < 4)} for i in range(16)]
+        return [{'n': 60, 'allprims': (i < 4)} for i in range(16)]
+    return [{'n': 2500, 'allprims': (i < 4)} for i in range(16)]
 
 
 def conclude(agg):
